@@ -145,6 +145,7 @@ SIGNATURES = {
     "H2": [("inner", "any"), ("s", "float")],
 }
 PLAIN_CTOR = {"Plain": ["p", "q"], "PlainEx": ["p", "q"]}
+PLAIN_EXCL = {"Plain": None, "PlainEx": ["q"]}
 BINOPS = {"+": "SumPrior", "*": "MultiplePrior", "/": "DivisionPrior", "//": "FloorDivPrior",
           "%": "ModPrior", "**": "PowerPrior"}
 UNOPS = {"neg": "NegativePrior", "abs": "AbsolutePrior"}
@@ -561,7 +562,8 @@ def node_term(e, pool, rename=None):
         d = dict((k, v) for k, v in e["attrs"])
         p, q = unhex(d["p"]["v"]), unhex(d["q"]["v"])
         attrs = e["attrs"] + [["derived", {"t": "float", "v": hx(p + q)}], ["_hidden", {"t": "float", "v": hx(17.0)}]]
-        return "(NInst %s %s %s)" % (cstr(e["cls"]), clist([cstr(a) for a in PLAIN_CTOR[e["cls"]]]), cattrs(attrs, pool, rename))
+        return "(NInst %s %s %s %s)" % (cstr(e["cls"]), clist([cstr(a) for a in PLAIN_CTOR[e["cls"]]]),
+                                        copt(PLAIN_EXCL[e["cls"]], lambda l: clist([cstr(x) for x in l])), cattrs(attrs, pool, rename))
     raise ValueError(t)
 
 
@@ -1272,7 +1274,7 @@ def run(ctx):
         hdr = ctx.header(["Common.PyFloat", "Gen", "Model"])
         bad, log = ctx.eval_cases(hdr, "case", "check_case", coq_cases, shard=max(20, len(coq_cases) // (2 * common.NCPU) + 1))
         if bad:
-            for b in bad[:5]:
+            for b in bad[: int(os.environ.get("C07_MAXREPORT", "5"))]:
                 i = coq_owner[b]
                 c, ok = cases[i], results[i].get("ok")
                 ctx.failure("correspondence", "model and implementation disagree on a %s case: %s" % (c["kind"], coq_cases[b][:60]),
